@@ -44,9 +44,11 @@ CLAIMED = {
              "the exact-pruning invariant over what the block will commit (batch_begin_invariant), every set/delete on the batch trie "
              "preserves it and never raises (batch_op_invariant), and a normal exit gives the outer trie the batch's tree and root "
              "with counts = true references and database = exactly the live nodes (batch_commit_exact, commit_produces_view). For a "
-             "NON-pruning outer trie, that the committed database is complete and free of intermediate-only nodes (clamped-counter "
-             "lemma) is tied by the exact-database correspondence and the oracle, not proved. Tie: exact db, root and counts after "
-             "every step, every exit kind and position.",
+             "NON-pruning outer trie (batch counts start empty over a non-empty database: exactness is tracked for hashes that are not "
+             "keys of the wrapped database) the same three steps are proved (np_batch_begin / np_batch_op / np_batch_commit): after a "
+             "normal exit nothing pre-existing is removed, every node of the new tree is present, and every ADDED key is a node of "
+             "the new tree - no node that served only intermediate states of the block is added. Key-level statements; that bodies are "
+             "the encodings is C04's content-addressing. Tie: exact db, root and counts after every step, every exit kind and position.",
         technique="Lean 4 proof (invariants of the world executor) + correspondence check with fault injection",
         design_ref="6/C05"),
     "C06": dict(
